@@ -197,6 +197,14 @@ theorem stream_error_floor (n : Node) (p : NodeId) :
   · subst hrq; rfl
   · next hne => subst hrq; simp [hid] at hne
 
+/-- the whole leader-side replication step (`replicate`: append the new entries, one request per peer) leaves ids and
+    match indexes as they were and keeps next_index above match_index for every peer -/
+theorem replicate_keeps_match (me : NodeId) (n : Node) (payload : Option Nat) (cap sid : Nat) :
+    (replicate me n payload cap sid).1.peers.map (fun p => (p.id, p.mtch)) = n.peers.map (fun p => (p.id, p.mtch))
+      ∧ NextAboveMatch (replicate me n payload cap sid).1.peers := by
+  unfold replicate
+  exact ⟨match_unchanged_round _ _ _ _ _ _ _ _ _, next_above_match_round _ _ _ _ _ _ _ _ _⟩
+
 /-- a majority of grants received first wins the election (`broadcast_vote_requests`) -/
 theorem tally_won (n : Nat) (req : VoteReq) : ∀ (grants : List VoteResp) (rest : List VoteResp) (s : Nat),
     (∀ r ∈ grants, r.granted = true) → n - 1 ≠ 0 → s + grants.length > n / 2 →
